@@ -269,6 +269,7 @@ Definition dep_files_expected : list (string * string) :=
  [("cosmossdk.io/x/upgrade@v0.1.4/keeper/msg_server.go", "4017b76b848c316a2354e80ce98d6832031430bf51bf386d9355a4d6cf146a25");
   ("github.com/cosmos/ibc-go/v8@v8.5.1/modules/apps/transfer/keeper/msg_server.go", "30cbd140d324c0c7c8179b5abdc0b5d0bfa30583025b67044c4a2b45b05cd170");
   ("github.com/cosmos/ibc-go/v8@v8.5.1/modules/core/keeper/msg_server.go", "5fdd185d8fc79e572030ef479b436e117bdbb75bf4d939766bc52589560ec473");
+  ("github.com/crypto-org-chain/cosmos-sdk@v0.50.6-0.20240902025731-535413db1bf4/baseapp/msg_service_router.go", "e2d0cbd8f74153177de8f95a2ee09374f8f0e3d1e6519bebf45c3ac45f539886");
   ("github.com/crypto-org-chain/cosmos-sdk@v0.50.6-0.20240902025731-535413db1bf4/x/auth/keeper/msg_server.go", "abaa45209973b372abf93df21c7ac41ff72b69eed2c5dbfaaf5c09634202ef9c");
   ("github.com/crypto-org-chain/cosmos-sdk@v0.50.6-0.20240902025731-535413db1bf4/x/bank/keeper/msg_server.go", "436f8a288ca753e6e4981b3cc7fe96ba487e6bcfc878705bcdb0a928916d21ff");
   ("github.com/crypto-org-chain/cosmos-sdk@v0.50.6-0.20240902025731-535413db1bf4/x/consensus/keeper/keeper.go", "87dd590cff55047dec946e5b594457cfcd2c964656c874685abf9b3ea36eb474");
@@ -287,3 +288,15 @@ Fixpoint str_pairs_eqb (a b : list (string * string)) : bool :=
   | (x1, y1) :: a', (x2, y2) :: b' => String.eqb x1 x2 && String.eqb y1 y2 && str_pairs_eqb a' b'
   | _, _ => false
   end.
+
+(* how a message reaches a privileged fx-core handler: only through baseapp's MsgServiceRouter (transactions,
+   authz MsgExec and gov proposal execution all obtain their handler from it), whose wrapper runs ValidateBasic
+   first — so a string that is not a decodable address never arrives at a handler.  Checked: the only calls of
+   a privileged handler by name in non-test code are the crosschain router's forwards (which sit behind the SDK
+   router themselves), and the pinned baseapp source calls ValidateBasic before the service method. *)
+Definition direct_callers_ok (l : list (string * string * string)) : bool :=
+  forallb (fun c => match c with (f, _, _) => String.eqb f "x/crosschain/keeper/msg_server_router.go" end) l.
+
+(* the handlers whose guard folds case (strings.EqualFold): informational, computed from the generated table *)
+Definition folding_handlers (hs : list handler_row) : list (string * string) :=
+  map (fun r => (h_url r, h_name r)) (filter (fun r => match h_kind r with CmpEqualFold => true | _ => false end) hs).
